@@ -13,7 +13,9 @@ IMPORTS = "From Verif Require Import Values Fsm Timers.\nOpen Scope string_scope
 # durations: name -> (python value, microseconds or 'inf'/'none')
 DUR = {'none': (None, 'none'), 'zero': (0, 0), 'neg': (-1.5, 0), 'd50': (0.05, 50_000),
        'd200': (0.2, 200_000), 'd1500': (1.5, 1_500_000), 'inf': (float('inf'), 'inf'),
-       's100': ('0.1s', 100_000), 's60500': ('1m0.5s', 60_500_000), 'i2': (2, 2_000_000)}
+       's100': ('0.1s', 100_000), 's60500': ('1m0.5s', 60_500_000), 'i2': (2, 2_000_000),
+       # strings with units in the other documented spellings: decimal comma, ISO 8601, upper case
+       's150c': ('0,15s', 150_000), 'iso250': ('PT0,25S', 250_000), 'S100U': ('0.1 S', 100_000)}
 
 
 def c_dval(name):
@@ -278,7 +280,7 @@ class C04(common.Spec):
 
 def timer_def(rng):
     """edzed.Timer as a table"""
-    t_on = rng.choice(['none', 'd50', 'd200', 's100', 'inf', 'zero'])
+    t_on = rng.choice(['none', 'd50', 'd200', 's100', 'inf', 'zero', 's150c', 'iso250'])
     t_off = rng.choice(['none', 'none', 'd50', 'd200', 'inf'])
     inst = []
     if t_on != 'none':
@@ -295,7 +297,7 @@ def timer_def(rng):
 
 
 def inputexp_def(rng):
-    du = rng.choice(['d50', 'd200', 's100', 'inf', 'zero', 'none'])
+    du = rng.choice(['d50', 'd200', 's100', 'inf', 'zero', 'none', 's150c', 'S100U'])
     initdef = rng.random() < 0.5
     return dict(states=['expired', 'valid'], all_states=['expired', 'valid'],
                 events=[['put', None, 'valid']],
@@ -321,7 +323,7 @@ def generic_def(rng):
     for st in states:
         if rng.random() < 0.7:
             tev = ['goto', rng.choice(states)] if rng.random() < 0.5 else ['name', rng.choice(names)]
-            timed.append([st, rng.choice(['none', 'zero', 'd50', 'd200', 'd1500', 'inf', 's100', 'i2']), tev])
+            timed.append([st, rng.choice(['none', 'zero', 'd50', 'd200', 'd1500', 'inf', 's100', 'i2', 's150c', 'iso250']), tev])
     inst = [[st, rng.choice(['none', 'd50', 'd200', 'inf', 'zero'])] for st, _, _ in timed if rng.random() < 0.4]
     cond = [[ev, rng.choice(['true', 'false', 'false'])] for ev in names if rng.random() < 0.25]
     enter_goto = []
@@ -369,7 +371,7 @@ def gen_case(rng):
             e = ['goto', rng.choice(d['all_states'])]
         else:
             e = ['name', 'nosuch']
-        dur = rng.choice([None, None, None, 'd50', 'd200', 'zero', 'neg', 'inf', 's100'])
+        dur = rng.choice([None, None, None, 'd50', 'd200', 'zero', 'neg', 'inf', 's100', 's150c', 'iso250', 'S100U'])
         events.append([t, e, dur])
     end = (times[-1] if times else 0) + rng.choice([0, 50_000, 250_000, 2_100_000])
     return dict(kind=kind, events=events, end_us=end, stop=rng.random() < 0.6, cb_events=rng.random() < 0.3,
